@@ -3,7 +3,7 @@
 Used as a pytest plugin (``pytest -p mbt.simrecorder`` with PYTHONPATH=/verif and SIMREC_OUT=<file>): the public
 methods of mxlpy.Simulator are wrapped from outside (no repository hook), every outermost call is logged with its
 arguments, whether it raised, and the resulting per-segment index and recorded parameter values.  ``convert``
-turns one raw log (one Simulator instance) into a trace of spec/SimulatorTrace.tla: integer ticks, at most two
+turns one raw log (one Simulator instance) into a trace of spec/SimulatorTrace.tla: times as 1000 * integer ticks, at most two
 parameters mapped onto the specification's (kin, kk) slots in sorted-name order, parameter changes between calls
 (update_parameter(s), scale_parameter(s), direct model edits) as explicit "upd" events.  Logs the specification
 cannot predict (steps=None: the integrator chooses the points; a non-integer linspace; more than two parameters)
@@ -150,7 +150,7 @@ def _convert_with(raw: dict, tick: float) -> dict:
         for i, n in enumerate(names):
             if new[n] != cur[n]:
                 ev.append({"op": {"k": "upd", "name": "kin" if i == 0 else "k", "v": _int(new[n], PS, "parameter value")},
-                           "raised": False, "segs": last_segs, "err": not last_segs})
+                           "raised": False, "segs": last_segs, "err": not last_segs, "vread": False, "views": []})
                 cur[n] = new[n]
 
     for c in raw["calls"]:
@@ -161,12 +161,12 @@ def _convert_with(raw: dict, tick: float) -> dict:
         if name == "simulate":
             if a.get("steps") is None:
                 raise NotApplicable("steps=None: the integrator chooses the points")
-            te, n = _int(a["t_end"], tick, "t_end"), int(a["steps"])
-            if te > now and (te - now) % n != 0:
+            te, n = 1000 * _int(a["t_end"], tick, "t_end"), int(a["steps"])
+            if te > now and ((te - now) // 1000) % n != 0:
                 raise NotApplicable("linspace off the tick grid")
             op = {"k": "sim", "te": te, "n": n}
         elif name == "simulate_time_course":
-            op = {"k": "tc", "pts": [_int(v, tick, "time point") for v in a["time_points"]]}
+            op = {"k": "tc", "pts": [1000 * _int(v, tick, "time point") for v in a["time_points"]]}
         elif name in ("simulate_protocol", "simulate_protocol_time_course"):
             prot = a["protocol"]
             steps, prev, full = [], 0.0, dict(cur)
@@ -183,7 +183,7 @@ def _convert_with(raw: dict, tick: float) -> dict:
                 op = {"k": "proto", "steps": steps, "n": n}
             else:
                 rel = bool(a.get("time_points_as_relative", False))
-                op = {"k": "ptc", "steps": steps, "pts": [_int(v, tick, "time point") for v in a["time_points"]],
+                op = {"k": "ptc", "steps": steps, "pts": [1000 * _int(v, tick, "time point") for v in a["time_points"]],
                       "rel": rel}
             if not c["raised"]:
                 cur.update(full)      # what the specification expects the model to hold now
@@ -199,10 +199,10 @@ def _convert_with(raw: dict, tick: float) -> dict:
             raise NotApplicable("integration failure recorded (error plumbing is not C04's subject)")
         segs = []
         for idx, p in zip(c["index"], c["pars"], strict=True):
-            segs.append({"times": [_int(v, tick, "result time") for v in idx], **slots(p)})
+            segs.append({"times": [1000 * _int(v, tick, "result time") for v in idx], **slots(p)})
         if op["k"] == "ss":
             op["tau"] = segs[-1]["times"][-1] if (segs and not c["raised"]) else 0
-        ev.append({"op": op, "raised": c["raised"], "segs": segs, "err": not segs})
+        ev.append({"op": op, "raised": c["raised"], "segs": segs, "err": not segs, "vread": False, "views": []})
         last_segs = segs
     return {"ev": ev, "p0": slots(raw["pars0"]), "test": raw["test"], "tick": tick}
 
